@@ -177,6 +177,11 @@ func (e *Exec) enterHeader(st *State, fr *Frame, h, prev *ssa.BasicBlock) (bool,
 	}
 	if fr.Iter[h] > limit {
 		if e.W.forceUnroll(fr.Fn, li.ordinal[h]) {
+			// the path may simply be infeasible (its condition contradicts what earlier iterations established)
+			if e.quickValid(st, e.C.False()) {
+				st.Dead = true
+				return false, nil
+			}
 			e.bail("loop %d of %s exceeds unroll bound %d", li.ordinal[h], fr.Fn, limit)
 		}
 		panic(restartCut{key})
